@@ -29,10 +29,15 @@ I3 == [I1 EXCEPT !["C"] = [NoneRec EXCEPT !.st = "valid", !.keys = <<KeyRec("k3"
 I4 == [I1 EXCEPT !["C"] = [Own("k3") EXCEPT !.rec = COld("k2")]]
 \* + RegCtrl(C, controller A)
 I5 == [I1 EXCEPT !["C"] = [NoneRec EXCEPT !.st = "valid", !.ctrl = CId("A")]]
+\* + RegPk(C,k3), AddNewAuthKey(C,k1,1), RemoveKeyIdx(C,k3,2): C's first key is a REVOKED key with authentication right
+I6 == [I1 EXCEPT !["C"] = [NoneRec EXCEPT !.st = "valid",
+                              !.keys = <<[key |-> "k3", revoked |-> TRUE, auth |-> TRUE], KeyRec("k1", TRUE)>>]]
 Inits0 == {I0}
 Inits1 == {I1}
-InitsAll == {I0, I1, I2, I3, I4, I5}
+InitsAll == {I0, I1, I2, I3, I4, I5, I6}
 InitsPrep == {I2, I3, I4, I5}
+Inits2 == {I2}
+Inits3 == {I3}
 
 Edge == PrintT(<<"EDGE", ToJson([from |-> State, act |-> act', to |-> State'])>>)
 InitOut == (TLCGet("level") = 1) => PrintT(<<"INIT", ToJson(State)>>)
